@@ -34,6 +34,9 @@ def run(ctx):
                       "inherited default", floor=5)
     ctx.rule("R11.n", "namespace model (shared with R13.h): ParameterizedMetaclass.__setattr__ / _clear_params_cache, Parameters.add_parameter and the _cls_parameters property interpreted abstractly on hierarchies of up to three levels and a diamond: after every class-level assignment, add_parameter or removal, `.param[name]` of every class of the hierarchy is the very Parameter object that governs attribute access there -- `D.param.x` of a class below a re-declaration shows the attributes merged for the nearest declaring class of D's MRO, not those of a farther ancestor", floor=1)
     from checks import namespace_model
+    ctx.rule("R11.q", "descriptor lookup model (shared with R14.q): the Parameter a class-level assignment copies for the class is the one of the nearest declaring class of the MRO (a diamond "
+                      "whose first base skips the declaration): later re-declarations merge with that copy", floor=1)
+    namespace_model.descriptor_lookup_model(ctx, "R11.q")
     namespace_model.report(ctx, "R11.n")
     ctx.rule("R11.o", "no hook runs on shared containers: in __param_inheritance the copy of the mutable slot values taken over from an ancestor precedes param._update_state() (which, for "
                       "selectors, appends the merged default to `_objects` in place) -- otherwise creating a subclass edits the ancestor's Parameter", floor=1)
